@@ -81,6 +81,11 @@ def _child(mod, shard, outfile):
         # the code under test prints diagnostics (e.g. printStack before InvalidEngineState): keep them off our stdout
         devnull = os.open(os.devnull, os.O_WRONLY)
         os.dup2(devnull, 1)
+        try:
+            import signal
+            faulthandler.register(signal.SIGUSR1, all_threads=True)  # kill -USR1 <pid> dumps the Python stack of a shard
+        except Exception:
+            pass
         t0 = time.time()
         res = mod.run_shard(shard)
         res.setdefault("shard", shard.get("name"))
